@@ -331,6 +331,20 @@ CHECKS = {
          "boundaries could be missed)",
          "runtime differential monitoring of the loaded program against a "
          "reference law", "4 C26"),
+ "C19": ("exploration",
+         "Seeded random terminals (random PDO maps with bit and byte "
+         "entries, channel Structs with byte and CoE offsets, ProcessDesc / "
+         "PacketDesc descriptors incl. size overrides) and devices linking "
+         "2-8 variables as reads or writes are run on both paths over the "
+         "same random frame: the real slow SyncGroup with the device's "
+         "Python update(), and the real FastSyncGroup program loaded into "
+         "the kernel (BPF_PROG_TEST_RUN); every read must equal the struct "
+         "decode of the variable's own bytes / bit, every write must change "
+         "exactly those, and both paths must agree.",
+         "little-endian host; linking a whole channel Struct to a device is "
+         "not exercised (such a device cannot join a sync group)",
+         "runtime differential monitoring of two implementations against a "
+         "struct-based oracle", "4 C19"),
 }
 
 NOT_YET = "check not built yet in this round (design in DESIGN.md section 4)"
